@@ -102,10 +102,10 @@ def opticG (B : Backend) (op : String) (args : List Sx) (impl : Sx) : Option Out
   match op, args with
   | "lax.optic.map_arrow", [fov, rov, f] => do
     let fov : Nat ← dec fov; let rov : Nat ← dec rov; let f : LF ← dec f
-    pure (laxIsoRel (LOptic.mapArrow B (opticFam fov rov) f) impl)
+    pure (laxDenoteRel B (LOptic.mapArrow B (opticFam fov rov) f) impl)
   | "lax.optic.map_adapted", [fov, rov, f] => do
     let fov : Nat ← dec fov; let rov : Nat ← dec rov; let f : LF ← dec f
-    pure (laxIsoRel (LOptic.mapAdapted B (opticFam fov rov) f) impl)
+    pure (laxDenoteRel B (LOptic.mapAdapted B (opticFam fov rov) f) impl)
   | "optic.deriv", [f, x, dy] => do
     let f : LF ← dec f; let x : L ← dec x; let dy : L ← dec dy
     let m : Res (L × Bool) := do
@@ -131,10 +131,10 @@ def opticG (B : Backend) (op : String) (args : List Sx) (impl : Sx) : Option Out
     pure { model := ms, agree := ms == impl, rel := "exact", note := r.site }
   | "var.forget", [f] => do
     let f : LF ← dec f
-    pure (laxIsoRel (LFunctor.mapArrowViaStrict B forgetFunctor f) impl)
+    pure (laxDenoteRel B (LFunctor.mapArrowViaStrict B forgetFunctor f) impl)
   | "var.forget_monogamous", [f] => do
     let f : LF ← dec f
-    pure (laxIsoRel (LFunctor.mapArrowViaStrict B forgetMonoFunctor f) impl)
+    pure (laxDenoteRel B (LFunctor.mapArrowViaStrict B forgetMonoFunctor f) impl)
   | _, _ => none
 
 end Drv
